@@ -448,7 +448,12 @@ func ctreeExposure(c *Ctx, rule string) {
 						continue
 					}
 					nRet++
-					c.Check(f == tv || f == lv, rule, fnName(f), "returns the node's content "+Expr(rv), P.Pos(in.Pos()), "only (*Tree).Value (guarded) and (*Leaf).Value may hand out what leafBranch holds")
+					// a function literal belongs to the method it is written in (a read done inside a callback of a locking helper)
+					owner := f
+					for owner.Parent() != nil {
+						owner = owner.Parent()
+					}
+					c.Check(owner == tv || owner == lv, rule, fnName(f), "returns the node's content "+Expr(rv), P.Pos(in.Pos()), "only (*Tree).Value (guarded) and (*Leaf).Value may hand out what leafBranch holds")
 				}
 			case ssa.CallInstruction:
 				if g := staticCallee(x.Common()); g == lv || g == lu {
